@@ -433,7 +433,7 @@ func init() {
 	table = map[string]fnSpec{
 		// ---------------------------------------------------------------- top level
 		"API": {[]string{"api1", ""}, none, fnOnly, func(x *interp, nd *Node) { dsl.API(nd.N, x.fn1(nd)) }},
-		"Service": {[]string{"s1", "s2", ""}, none, fnOnly, func(x *interp, nd *Node) { dsl.Service(nd.N, x.fn1(nd)) }},
+		"Service": {[]string{"s1", "s2", "s3", ""}, none, fnOnly, func(x *interp, nd *Node) { dsl.Service(nd.N, x.fn1(nd)) }},
 		"Type": {[]string{"T1", "T2", ""}, attrTypes, []string{"fn", "plain", "nilfn", "many", "desc"}, func(x *interp, nd *Node) {
 			var args []any
 			if nd.T != "-" {
@@ -514,8 +514,8 @@ func init() {
 		"HTTP":            {none, none, fnsVars, func(x *interp, nd *Node) { dsl.HTTP(x.fns(nd)...) }},
 		"GRPC":            blockFn(dsl.GRPC),
 		"Path":            textFn(dsl.Path, paths...),
-		"Parent":          textFn(dsl.Parent, "s1", "s2", "nosuch", ""),
-		"CanonicalMethod": textFn(dsl.CanonicalMethod, "m1", "m2", "nosuch", ""),
+		"Parent":          textFn(dsl.Parent, "s1", "s2", "s3", "nosuch", ""),
+		"CanonicalMethod": textFn(dsl.CanonicalMethod, "m1", "m2", "show", "nosuch", ""),
 		"Package":         textFn(dsl.Package, "pkg", "", "odd", "a.b"),
 		"Consumes": {[]string{"application/json", "application/xml", "", "odd", "-"}, none, []string{"plain"}, func(x *interp, nd *Node) {
 			if nd.N == "-" {
@@ -627,7 +627,7 @@ func init() {
 		"Trailers": blockFn(dsl.Trailers),
 
 		// ---------------------------------------------------------------- methods
-		"Method": {[]string{"m1", "m2", ""}, none, fnOnly, func(x *interp, nd *Node) { dsl.Method(nd.N, x.fn1(nd)) }},
+		"Method": {[]string{"m1", "m2", "show", ""}, none, fnOnly, func(x *interp, nd *Node) { dsl.Method(nd.N, x.fn1(nd)) }},
 		"Payload":          {none, methodTypes, attrVars, func(x *interp, nd *Node) { x.methodTypeCall(dsl.Payload, nd) }},
 		"StreamingPayload": {none, methodTypes, attrVars, func(x *interp, nd *Node) { x.methodTypeCall(dsl.StreamingPayload, nd) }},
 		"Result":           {none, methodTypes, attrVars, func(x *interp, nd *Node) { x.methodTypeCall(dsl.Result, nd) }},
